@@ -57,12 +57,15 @@ TEXT["C11"] = dict(
 )
 TEXT["C12"] = dict(
     category="other",
-    technique="Verus contract on the real replacement() driver + Kani/CBMC Hoare triples on the replace kernels",
+    technique="Verus contracts on the real replacement() driver and MuPlusLambda::replace + Kani/CBMC Hoare triples on the replace kernels",
     text=("replacement() is proved (unbounded) to consume the two top populations and push replace(below, top) for an arbitrary "
-          "operator, rest of the stack untouched. The kernels DiscardOffspring, Generational, Merge, MuPlusLambda, "
-          "RandomReplacement are checked bit-precisely at enumerated sizes (<= 2+2) over all tags, objective values (ties, +inf) "
-          "and mu <= 7: named content, sub-multiset of parents+offspring, mu-best with no discarded individual better than a kept one."),
-    note="Kernels bounded by population sizes. KeepBetterAtIndex uncovered (ensure! => Kani ICE; iterator chain => Verus rejects).",
+          "operator, rest of the stack untouched. MuPlusLambda::replace is proved (unbounded: all sizes, all mu) to return the "
+          "sorted mu best of parents ++ offspring: a rearrangement split kept ++ discarded with no discarded individual better than "
+          "a kept one. The kernels DiscardOffspring, Generational, Merge, MuPlusLambda, RandomReplacement are also checked "
+          "bit-precisely by Kani at enumerated sizes (<= 2+2) over all tags and objective values (ties, +inf)."),
+    note=("Trusted: assumed std meaning of Vec::extend / sort_unstable_by_key / truncate in the Verus unit (checked against real std by "
+          "the bounded Kani triples). KeepBetterAtIndex is out of reach of both verifiers (ensure! => Kani ICE; iterator chain => Verus "
+          "rejects) and is covered ONLY by a bounded native enumeration (native_bounded in the evidence, never counted as proved)."),
 )
 TEXT["C13"] = dict(
     category="other",
@@ -71,7 +74,9 @@ TEXT["C13"] = dict(
           "multi-point / arithmetic / cycle crossover (length, position-wise parental genes, gene conservation, stated formula) and "
           "OptionalPair::from_pair are checked at concrete lengths (<= 4, thorough 5) over all contents and valid index tuples. "
           "SwapMutation::from_params is proved (Verus) to reject exactly num_swap < 2."),
-    note="Bounded by length. Mutation components' execute bodies (State + RNG) and the recombination() driver are not covered.",
+    note=("Bounded by length. The recombination() driver (State-based, chunks + slice patterns) is out of reach of both verifiers and is "
+          "covered ONLY by a bounded native run (native_bounded in the evidence, never counted as proved). Mutation components' execute "
+          "bodies (State + RNG) are not covered."),
 )
 TEXT["C14"] = dict(
     category="other",
